@@ -13,6 +13,15 @@ pub struct Shards {
     cur: usize,
     pub scenarios: u64,
     pub events: u64,
+    /// records written since the last `reset`
+    in_scenario: u64,
+}
+
+/// A scenario that produces more records than this is a livelock of the code under test (it keeps
+/// doing something observable without ever finishing): the trace ends with a `runaway` record and
+/// the process exits with code 98 instead of filling the disk.
+fn scenario_cap() -> u64 {
+    std::env::var("VH_SCN_RECORD_CAP").ok().and_then(|s| s.parse().ok()).unwrap_or(1_500_000)
 }
 
 impl Shards {
@@ -25,12 +34,13 @@ impl Shards {
             files.push(BufWriter::new(File::create(&p).expect("create trace file")));
             paths.push(p);
         }
-        Shards { files, paths, cur: 0, scenarios: 0, events: 0 }
+        Shards { files, paths, cur: 0, scenarios: 0, events: 0, in_scenario: 0 }
     }
 
     /// Starts a new scenario; `desc` (an object) is merged into the reset record.
     pub fn reset(&mut self, desc: Value) -> u64 {
         self.scenarios += 1;
+        self.in_scenario = 0;
         self.cur = (self.scenarios as usize) % self.files.len();
         let mut rec = json!({"ev": "reset", "id": self.scenarios});
         if let (Some(r), Some(d)) = (rec.as_object_mut(), desc.as_object()) {
@@ -48,6 +58,15 @@ impl Shards {
 
     pub fn ev(&mut self, v: Value) {
         self.events += 1;
+        self.in_scenario += 1;
+        if self.in_scenario > scenario_cap() {
+            self.write(&json!({"ev": "runaway", "records": self.in_scenario}));
+            for f in self.files.iter_mut() {
+                let _ = f.flush();
+            }
+            eprintln!("RUNAWAY scenario {} wrote more than {} records", self.scenarios, scenario_cap());
+            std::process::exit(98);
+        }
         self.write(&v);
     }
 
